@@ -44,9 +44,9 @@ def owners(reason, default):
     return {default}
 
 
-def consts(mode, n, edges, br, d, marks=0, rerun=False, fail=False, multi=False, maxchoice=(0,), ends=2):
+def consts(mode, n, edges, br, d, marks=0, rerun=False, fail=False, multi=False, maxchoice=(0,), ends=2, orphans=False):
     return {"Mode": mode, "N": n, "MaxEdges": edges, "MaxBr": br, "D": d, "MaxMarks": marks, "AllowRerun": rerun,
-            "AllowFail": fail, "AllowMulti": multi, "MaxChoice": list(maxchoice), "MaxEnds": ends}
+            "AllowFail": fail, "AllowMulti": multi, "MaxChoice": list(maxchoice), "MaxEnds": ends, "AllowOrphans": orphans}
 
 
 INNER = [
@@ -64,7 +64,7 @@ def nest(scs, rnd, frac, marks=False):
     for sc in scs:
         if sc["mode"] == "wf" or rnd.random() >= frac:
             continue
-        cand = [n for n in sc["nodes"] if n not in sc.get("rerun", []) and not any(f["n"] == n for f in sc.get("fail", []))]
+        cand = [n for n in sc["nodes"] if n not in sc.get("rerun", [])]
         if not cand:
             continue
         n = cand[rnd.randrange(len(cand))]
@@ -72,6 +72,10 @@ def nest(scs, rnd, frac, marks=False):
         inner = copy.deepcopy(INNER[rnd.randrange(len(INNER))])
         inner["id"] = "inner"
         inner.update({"before": [], "after": [], "rerun": [], "fail": [], "max": 0})
+        moved = [f for f in s2.get("fail", []) if f["n"] == n]
+        if moved:           # the failing node moves inside the graph node: the error path must be [n, s2]
+            s2["fail"] = [f for f in s2["fail"] if f["n"] != n]
+            inner["fail"] = [{"n": "s2", "kind": moved[0]["kind"]}]
         if marks:
             k = rnd.randrange(4)
             if k == 1:
@@ -222,4 +226,93 @@ def c01(tier, repo=None):
                             assumptions=["graphs in which an edge and a branch of one source target the same node are outside the universe"])
 
 
-CHECKS = {"C01": c01}
+def c02(tier, repo=None):
+    def nontrivial(case, obs):
+        """a branch was evaluated or some node has >= 2 predecessors (fan-in), i.e. trigger bookkeeping was exercised"""
+        tgt = {}
+        for e in case["edges"]:
+            tgt[e[1]] = tgt.get(e[1], 0) + 1
+        return _has(obs, "branch") or any(v >= 2 for k, v in tgt.items() if k != "end")
+
+    def classify(case, reason, obs):
+        return reason
+    if tier == "quick":
+        fams = [("d3", consts("dag", 3, 4, 1, 0, multi=True), {}),
+                ("d3b", consts("dag", 3, 3, 2, 0), {}),
+                ("w3", consts("wf", 3, 4, 1, 0, multi=True), {}),
+                ("d2o", consts("dag", 2, 3, 1, 0, orphans=True), {})]
+        models = ["MC_EinoRun_dag3.cfg"]
+        limit = 40000
+    else:
+        fams = [("d3", consts("dag", 3, 5, 2, 0, multi=True), {"timeout": 1800}),
+                ("w3", consts("wf", 3, 5, 2, 0, multi=True), {"timeout": 1800}),
+                ("d4s", consts("dag", 4, 7, 2, 0, multi=True, ends=3), {"simulate": "num=50000", "depth": 14, "seed": vlib.SEED, "workers": 1}),
+                ("w4s", consts("wf", 4, 7, 2, 0, multi=True, ends=3), {"simulate": "num=50000", "depth": 14, "seed": vlib.SEED, "workers": 1}),
+                ("d3o", consts("dag", 3, 4, 1, 0, orphans=True), {})]
+        models = ["MC_EinoRun_dag3.cfg"]
+        limit = 250000
+    return run_engine_check("C02", tier, model_cfgs=models, families=fams, decorate_kw={}, nontrivial=nontrivial, classify=classify,
+                            nest_frac=0.05, limit=limit, repo=repo,
+                            assumptions=["workflow data-only edges are only generated where a control path exists (documented requirement)",
+                                         "the run returns as soon as END is assembled: side branches that do not feed END may be cut off (not judged)"])
+
+
+def _intr_families(tier):
+    if tier == "quick":
+        return [("ip2", consts("pregel", 2, 3, 1, 2, marks=2, rerun=True, maxchoice=(3,)), {}),
+                ("id3", consts("dag", 3, 3, 1, 0, marks=2, rerun=True), {}),
+                ("iw3", consts("wf", 3, 3, 1, 0, marks=1, rerun=True), {})], 30000
+    return [("ip2", consts("pregel", 2, 4, 1, 2, marks=2, rerun=True, multi=True, maxchoice=(3,)), {"timeout": 1800}),
+            ("ip3", consts("pregel", 3, 3, 1, 1, marks=2, rerun=True, maxchoice=(3,)), {"timeout": 1800}),
+            ("id3", consts("dag", 3, 4, 1, 0, marks=2, rerun=True, multi=True), {"timeout": 1800}),
+            ("iw3", consts("wf", 3, 4, 1, 0, marks=2, rerun=True), {"timeout": 1800}),
+            ("ip4s", consts("pregel", 4, 6, 2, 2, marks=3, rerun=True, multi=True, maxchoice=(4,)), {"simulate": "num=40000", "depth": 14, "seed": vlib.SEED, "workers": 1}),
+            ("id4s", consts("dag", 4, 7, 2, 0, marks=3, rerun=True, multi=True), {"simulate": "num=40000", "depth": 14, "seed": vlib.SEED, "workers": 1})], 300000
+
+
+def c05(tier, repo=None):
+    def nontrivial(case, obs):
+        """the run was interrupted at least once and resumed"""
+        return _has(obs, "resume")
+    fams, limit = _intr_families(tier)
+    return run_engine_check("C05", tier, model_cfgs=["MC_EinoRun_pregel2.cfg"] + (["MC_EinoRun_dag3.cfg"] if tier == "thorough" else []),
+                            families=fams, decorate_kw={"state_frac": 0.3}, nontrivial=nontrivial, nest_frac=0.12, nest_marks=True,
+                            limit=limit, repo=repo,
+                            assumptions=["the step counter restarts with every call, so cyclic graphs interrupted at every step are cut off after 12 node executions (giveup), never judged",
+                                         "equivalence with the uninterrupted run is decided by the rule: every execution must be due with exactly the predicted input, so the executions with interrupt/resume marks removed are the uninterrupted run"])
+
+
+def c06(tier, repo=None):
+    def nontrivial(case, obs):
+        """an interrupt was returned (before / after / rerun / nested)"""
+        return _has(obs, "interrupt")
+    fams, limit = _intr_families(tier)
+    return run_engine_check("C06", tier, model_cfgs=["MC_EinoRun_pregel2.cfg"] + (["MC_EinoRun_dag3.cfg"] if tier == "thorough" else []),
+                            families=fams, decorate_kw={"noid_frac": 0.12, "state_frac": 0.3}, nontrivial=nontrivial, nest_frac=0.12,
+                            nest_marks=True, limit=limit, repo=repo,
+                            assumptions=["'stops before any of its successors starts' is read per the statement: only successors triggered by the after-node are constrained"])
+
+
+def c13(tier, repo=None):
+    def nontrivial(case, obs):
+        """the run ended in an error (node failure, panic, step limit, cancellation)"""
+        return _has(obs, "error")
+
+    def extra(rnd):
+        return []
+    if tier == "quick":
+        fams = [("fp3", consts("pregel", 3, 3, 1, 1, fail=True, maxchoice=(3,)), {}),
+                ("fd3", consts("dag", 3, 4, 1, 0, fail=True), {}),
+                ("fw3", consts("wf", 3, 4, 0, 0, fail=True), {})]
+        limit = 30000
+    else:
+        fams = [("fp3", consts("pregel", 3, 4, 1, 2, fail=True, multi=True, maxchoice=(3,)), {"timeout": 1800}),
+                ("fd3", consts("dag", 3, 4, 1, 0, fail=True, multi=True), {"timeout": 1800}),
+                ("fw3", consts("wf", 3, 4, 1, 0, fail=True), {"timeout": 1800})]
+        limit = 300000
+    return run_engine_check("C13", tier, model_cfgs=["MC_EinoRun_fail2.cfg"], families=fams, decorate_kw={"fail_variants": True},
+                            nontrivial=nontrivial, nest_frac=0.15, limit=limit, repo=repo,
+                            assumptions=["a failing side branch of an eager (workflow) run that does not feed END may go unreported when END is assembled first (not judged)"])
+
+
+CHECKS = {"C01": c01, "C02": c02, "C05": c05, "C06": c06, "C13": c13}
